@@ -26,6 +26,7 @@ type textChecker struct {
 	// statistics
 	Compared, Unsupported, BothRefuse int
 	mismatches                       int
+	Declarative, DeclarativeRejected int // profiles the model calls declarative and well scoped (the premise of the safety theorem)
 }
 
 func newTextChecker(e *core.Env, res *core.Result) *textChecker {
@@ -124,6 +125,20 @@ func (t *textChecker) checkSeq(label string, texts []string) bool {
 			return false
 		}
 		t.Compared++
+		// the premise of C07_declarative_profile_bodies_are_safe, evaluated by the model on the rule it built: such a module must be
+		// accepted by the engine (known finding uniqueValues-alt-path apart, which is a parse error of one snippet)
+		if ans, derr := t.e.Driver.Eval(sx.L(sx.A("compile"), sx.A("declarative"), sx.L(t.defaults...), y)); derr == nil && ans.IsAtom() && ans.Atom == "1" {
+			t.Declarative++
+			if unit.Code == want {
+				if _, cerr := validator.CompileRego(unit, nil); cerr != nil && !strings.Contains(cerr.Error(), "rego_parse_error") && !strings.Contains(cerr.Error(), "gen_path_array_rule") {
+					t.DeclarativeRejected++
+					if t.DeclarativeRejected <= 3 {
+						t.res.Violate("impl-violates-property", "a declarative, well-scoped profile (the premise of the safety theorem holds on the rule the model built, and the module is the model's text) is refused by the engine ("+label+"): "+core.Trunc(cerr.Error(), 300),
+							map[string]any{"case": label, "profile": text, "error": core.Trunc(cerr.Error(), 1500)})
+					}
+				}
+			}
+		}
 		if unit.Code != want {
 			all = false
 			t.mismatches++
@@ -140,7 +155,7 @@ func (t *textChecker) checkSeq(label string, texts []string) bool {
 }
 
 func (t *textChecker) summary() string {
-	return fmt.Sprintf("whole-module text: %d modules equal to Compile.module_text byte for byte, %d profiles outside the modelled language, %d refused by both", t.Compared-t.mismatches, t.Unsupported, t.BothRefuse)
+	return fmt.Sprintf("whole-module text: %d modules equal to Compile.module_text byte for byte, %d profiles outside the modelled language, %d refused by both; %d of the compared profiles are declarative and well scoped (Compile.profile_scoped), %d of them refused by the engine", t.Compared-t.mismatches, t.Unsupported, t.BothRefuse, t.Declarative, t.DeclarativeRejected)
 }
 
 // ModText is the debugging entry point `verifh modtext FILE...`.
